@@ -264,6 +264,7 @@ func testRegistry(rt *rapid.T, st *RunStats) {
 		}
 	}
 	valSeq := int64(1000)
+	manyDone := false
 	// prefill so that the interesting region is reached
 	pre := rapid.SampledFrom([]int{0, 0, 3, max/4 - 2, max - 70, max - 3, max - 1, max}).Draw(rt, "prefill")
 	for i := 0; i < pre; i++ {
@@ -393,6 +394,75 @@ func testRegistry(rt *rapid.T, st *RunStats) {
 			cls["typed-use-of-universe-types"] = true
 			if len(m.order) > comps.N+8 {
 				cls["typed-use-after-late-registration"] = true
+			}
+		},
+		"manyArchetypes": func(t *rapid.T) {
+			// one universe component shared by well over 128 / 256 archetypes (distinct combinations with other
+			// registered types): typed and ID-based queries must still find every entity
+			if manyDone {
+				t.Skip()
+			}
+			var others []int // registered non-universe types, by ID
+			for id, ti := range m.order {
+				if ti >= comps.N && !(regType(ti) == reflect.TypeFor[relWithPayload]()) {
+					others = append(others, id)
+				}
+			}
+			if len(others) < 12 {
+				t.Skip()
+			}
+			c := rapid.IntRange(0, comps.N-1).Draw(t, "marker")
+			if comps.All[c].Relation || !registerType(c) {
+				t.Skip()
+			}
+			manyDone = true
+			want := rapid.SampledFrom([]int{126, 127, 128, 129, 255, 256, 257, 300}).Draw(t, "archetypes")
+			start := rapid.IntRange(0, len(others)-1).Draw(t, "firstOther")
+			marker := mkIDOf(w, c)
+			n := 0
+			add := func(extra ...int) {
+				if n >= want {
+					return
+				}
+				ids := []ecs.ID{marker}
+				for _, x := range extra {
+					ids = append(ids, mkID(uint8(others[(start+x)%len(others)])))
+				}
+				tr := &tracked{val: map[int]int64{}, tgt: map[int]int{}}
+				if p := try(func() { tr.e = u.NewEntity(ids...) }); p != nil {
+					failf("registry|many|create", "creating archetype number %d with the marker panicked: %v", n+1, p)
+				}
+				valSeq++
+				tr.val[c] = 0
+				if comps.All[c].Type.Size() > 0 {
+					comps.SetV(c, u.Get(tr.e, marker), valSeq)
+					tr.val[c] = comps.GetV(c, u.Get(tr.e, marker))
+				}
+				ents = append(ents, tr)
+				n++
+			}
+			k := len(others)
+			for i := 0; i < k; i++ {
+				add(i)
+			}
+			for i := 0; i < k; i++ {
+				for j := i + 1; j < k; j++ {
+					add(i, j)
+				}
+			}
+			for i := 0; i < k && n < want; i++ {
+				for j := i + 1; j < k && n < want; j++ {
+					for l := j + 1; l < k && n < want; l++ {
+						add(i, j, l)
+					}
+				}
+			}
+			checkTracked(fmt.Sprintf("after creating %d archetypes with a shared component", n))
+			if n >= 127 {
+				cls["component-shared-by-127-or-more-archetypes"] = true
+			}
+			if n >= 256 {
+				cls["component-shared-by-256-or-more-archetypes"] = true
 			}
 		},
 		"removeTracked": func(t *rapid.T) {
